@@ -43,6 +43,8 @@ class C17(Prop):
         "post-state exactly on all integral/boolean fields, on the transmitted segments and on the timer table keys, and within a relative "
         "1e-12 on cwnd, ssthresh, rtt_estimate, est_deviation, rto and armed timeouts (binary64 rounding is outside the Q theorems)",
         "TCPCubic.cnt (computed with libm `**` in cubic_update) is an input oracle of the model: the value the real code computed is fed to the model's counting rule",
+        "props/tcp_common.py:translate_cc (Python ast, fail-closed) regenerates coq/Gen/Extracted_cc.v from the CongestionControl / TCPReno method bodies "
+        "of the tree under test before every build; the C17_gen_* theorems bridge them to the hand-written model",
         "the Timer is taken as specified by C19 (fires its callback once at creation+timeout unless stopped; restart from its own callback re-arms); "
         "the monitor checks expiry instants against the armed deadlines",
     ]
@@ -111,6 +113,11 @@ class C17(Prop):
         script.append(["wait", "1/64"])
         case["script"] = script
         return case
+
+    # ---- second tie: translated CongestionControl bodies (fail closed) ----------------------------
+    def pre_build(self):
+        from vlib import framework as fw
+        T.write_extracted_cc(fw.REPO, fw.VERIF)
 
     # ---- implementation ---------------------------------------------------------------------
     def run_impl(self, case):
